@@ -163,5 +163,48 @@ def probe_f10(ctx):
 
 
 def replay(ctx, obj):
-    print('cases are regenerated from the seed: VERIF_SEED=%s ./check C16' % obj.get('seed'))
-    return 0
+    """re-run one split: create on both databases, evolve each in turn, report what each database holds"""
+    evorig.setup()
+    r = obj.get('replay', obj)
+    if 'routes' not in r:
+        print('nothing to replay in this file: %r' % list(r))
+        return 0
+    spec, muts = r['spec'], r['mutations']
+    names = list(r['routes'])
+    routes = {('vapp', nm.lower()): db for nm, db in r['routes'].items()}
+    sig0 = dbrig.sig_from_models(dbrig.build_models(spec))
+    final = sigs.real_simulate(sig0, 'vapp', [sigs.real_mutation(m) for m in muts])[1]
+    spec1 = dbrig.spec_from_sig(final)
+    spec1['apps'] = [a for a in spec1['apps'] if a['id'] == 'vapp']
+    bad = 0
+    evorig.set_routes(routes)
+    try:
+        evorig.fresh_databases()
+        evorig.clear_evolutions()
+        evorig.install_models(spec)
+        for alias in ('default', 'other'):
+            evorig.run_evolver(alias)
+        evorig.install_models(spec1)
+        evorig.set_evolutions('vapp', [{'label': 'e1', 'mutations': [sigs.real_mutation(m) for m in muts]}])
+        for alias, other in (('default', 'other'), ('other', 'default')):
+            before_other = evorig.snapshot(other)
+            out = evorig.run_evolver(alias)
+            if evorig.snapshot(other) != before_other:
+                print('PROBLEM: evolving %s modified %s' % (alias, other))
+                bad = 1
+            stored = evorig.bookkeeping(alias)['sig'].get_app_sig('vapp')
+            tgt = final.get_app_sig('vapp')
+            for nm in names:
+                mine = r['routes'][nm] == alias
+                a = stored.get_model_sig(nm) if stored is not None else None
+                b = tgt.get_model_sig(nm)
+                if mine and out[0] == 'ok' and ((a is None) != (b is None) or (a is not None and (b.diff(a) or a.diff(b)))):
+                    print('PROBLEM: after evolving %s model %s is not at the evolved signature' % (alias, nm))
+                    bad = 1
+                if not mine and a is not None:
+                    print('PROBLEM: %s stores a signature for %s, which is routed elsewhere' % (alias, nm))
+                    bad = 1
+            print('%s: outcome=%s tables=%s' % (alias, out[0], user_tables(alias)))
+    finally:
+        evorig.set_routes({})
+    return bad
